@@ -143,6 +143,71 @@ fn block_unroll_oracle(ctx: &mut Ctx, spec: &NetSpec, x: &Tensor, y: &Tensor) {
         format!("{} predict {}", clip(&spec.token(), 1200), qt(x)), r1(&got), r1(&expect));
 }
 
+/// every layer is bias-free with a positively homogeneous activation, and no accumulation multiplies
+fn homogeneous(spec: &NetSpec) -> bool {
+    let act_ok = |a: &str| a == "linear" || a == "relu" || a == "leaky";
+    let inner_ok = |l: &InnerSpec| match l {
+        InnerSpec::Dense { act, bias, dropout, .. } => act_ok(act) && !*bias && dropout.is_none(),
+        InnerSpec::Conv { act, dropout, .. } => act_ok(act) && dropout.is_none(),
+        InnerSpec::Deconv { act, dropout, .. } => act_ok(act) && dropout.is_none(),
+        InnerSpec::Maxpool { .. } => true,
+    };
+    spec.clamp.is_none() && spec.builds.iter().all(|b| match b {
+        Build::Layer(l) => inner_ok(l),
+        Build::Feedback { inner, acc, .. } => acc != "mul" && inner.iter().all(|l| inner_ok(l)),
+        Build::Connect(..) => spec.skipacc != "mul",
+        Build::Loopback { .. } => spec.loopacc != "mul",
+    })
+}
+
+/// oracles that do not depend on the size of the numbers: (1) a bias-free network of linear / (leaky) ReLU layers whose
+/// accumulations do not multiply is positively homogeneous, and scaling by a power of two commutes with every rounding
+/// (away from overflow and the subnormal range), so predict(2^k x) = 2^k predict(x) bit for bit; (2) the mean of two
+/// numbers lies between them (two diagonal linear layers, the second the target of a mean connection from the first)
+fn scale_oracles(ctx: &mut Ctx, spec: &NetSpec, net: &Network, x: &Tensor, y: &Tensor, desc: &str) {
+    let xf = flat_any(x);
+    let yf = flat_any(y);
+    let key = match ctx.prop.as_str() { "C11" => "feedback-forward", "C16" => "skip-forward", _ => "loop-forward" };
+    let maxabs = xf.iter().fold(0f32, |a, b| a.max(b.abs()));
+    if homogeneous(spec) && xf.iter().all(|v| v.is_finite()) && maxabs > 1e-25 && maxabs < 1e-3 {
+        let k = (2.0f32).powi(20);
+        let mut xs = x.clone();
+        scale_tensor(&mut xs, None, k);
+        if let Ok(y2) = net::try_run(|| net.predict(&xs)) {
+            let y2f = flat_any(&y2);
+            let in_range = yf.iter().chain(y2f.iter()).all(|v| v.is_finite() && (*v == 0.0 || v.abs() > 1e-30));
+            if in_range && yf.len() == y2f.len() {
+                let ok = yf.iter().zip(y2f.iter()).all(|(a, b)| (b / k).to_bits() == a.to_bits() || (*a == 0.0 && *b == 0.0));
+                ctx.oracle(ok, key, "a bias-free network of linear / ReLU layers is positively homogeneous: the prediction for 2^20·x is 2^20 times the prediction for x, bit for bit",
+                    desc.to_string(), format!("{:?}", yf), format!("{:?} / 2^20", y2f));
+            }
+        }
+    }
+    // the diagonal pattern
+    if spec.skipacc == "mean" && spec.builds.len() == 3 {
+        if let (Build::Layer(InnerSpec::Dense { act: a0, bias: false, w: w0, .. }), Build::Layer(InnerSpec::Dense { act: a1, bias: false, w: w1, .. }), Build::Connect(0, 1)) =
+            (&spec.builds[0], &spec.builds[1], &spec.builds[2]) {
+            let m0 = match &w0.data { Data::Double(m) => m.clone(), _ => return };
+            let m1 = match &w1.data { Data::Double(m) => m.clone(), _ => return };
+            let n = xf.len();
+            let diag = |m: &Vec<Vec<f32>>| m.len() == n && m.iter().enumerate().all(|(i, r)| r.len() == n && r.iter().enumerate().all(|(j, v)| i == j || *v == 0.0));
+            let ident = m1.iter().enumerate().all(|(i, r)| r.get(i) == Some(&1.0));
+            if a0 == "linear" && a1 == "linear" && diag(&m0) && diag(&m1) && ident && yf.len() == n && xf.iter().all(|v| v.is_finite() && v.abs() < 1.0e38) {
+                let mut ok = true;
+                for i in 0..n {
+                    let a = m0[i][i] * xf[i];
+                    let b = xf[i];
+                    if !a.is_finite() || a.abs() > 1.0e38 { continue; }
+                    let (lo, hi) = if a <= b { (a, b) } else { (b, a) };
+                    if !(yf[i] >= lo && yf[i] <= hi) { ok = false; }
+                }
+                ctx.oracle(ok, key, "the mean of a layer's ordinary input and its source's input lies between the two, component by component",
+                    desc.to_string(), format!("{:?}", yf), "between the operands".into());
+            }
+        }
+    }
+}
+
 pub fn net_oracles_predict(ctx: &mut Ctx, spec: &NetSpec, net: &Network, x: &Tensor, res: &Result<Tensor, String>) {
     if !is(ctx, &["C02", "C11", "C16", "C17", "C08"]) {
         return;
@@ -165,6 +230,9 @@ pub fn net_oracles_predict(ctx: &mut Ctx, spec: &NetSpec, net: &Network, x: &Ten
             return;
         }
     };
+    if is(ctx, &["C16", "C17", "C11"]) {
+        scale_oracles(ctx, spec, net, x, y, &desc);
+    }
     let mut m = Margin(f64::INFINITY);
     let (_, out) = r.forward(&f64s(x), &mut m);
     // ties / kinks change which branch is taken; only compare away from them
@@ -428,6 +496,30 @@ pub fn net_oracles_validate(ctx: &mut Ctx, spec: &NetSpec, net: &mut Network, xs
             ctx.oracle(l2.to_bits() == loss.to_bits() && a2.to_bits() == acc.to_bits(), "dropout-leaks-into-validation",
                 "validation metrics must be those of the dropout-free network, whatever the training flags are when it is called",
                 desc.clone(), format!("loss {:e} acc {:e}", loss, acc), format!("loss {:e} acc {:e}", l2, a2));
+        }
+        // the same network built without any dropout rate at all (same weights): identical metrics
+        let strip = |l: &InnerSpec| -> InnerSpec {
+            let mut l = l.clone();
+            match &mut l {
+                InnerSpec::Dense { dropout, .. } | InnerSpec::Conv { dropout, .. } | InnerSpec::Deconv { dropout, .. } => { *dropout = None; }
+                InnerSpec::Maxpool { .. } => {}
+            }
+            l
+        };
+        let mut spec2 = spec.clone();
+        for b in spec2.builds.iter_mut() {
+            match b {
+                Build::Layer(l) => { *l = strip(l); }
+                Build::Feedback { inner, .. } => { for l in inner.iter_mut() { *l = strip(l); } }
+                _ => {}
+            }
+        }
+        if let Ok(Ok(mut twin)) = net::try_run(|| net::build(&spec2)) {
+            if let Ok((l3, a3)) = net::try_run(|| twin.validate(&xr, &tr, tol)) {
+                ctx.oracle(l3.to_bits() == loss.to_bits() && a3.to_bits() == acc.to_bits(), "dropout-leaks-into-validation",
+                    "validation metrics must be those of the same network built without dropout",
+                    desc.clone(), format!("loss {:e} acc {:e}", loss, acc), format!("loss {:e} acc {:e}", l3, a3));
+            }
         }
     }
     if is(ctx, &["C12"]) {
